@@ -1708,4 +1708,104 @@ theorem validTrigger_shape (t : TriggerD) (h : validTrigger t = true) : validTri
     · simp [hk]
   · cases normKeywords t <;> simp
 
+theorem allNodes_shapeDoc (d : DocD) : allNodes (shapeDoc d) = (allNodes d).map shapeNode := by
+  simp only [allNodes, shapeDoc, List.map_map]
+  induction d.flows with
+  | nil => rfl
+  | cons f fs ih =>
+    simp only [List.map_cons, List.flatten_cons, List.map_append, ih]
+    rfl
+
+theorem docGroupRefs_shapeDoc (d : DocD) : docGroupRefs (shapeDoc d) = docGroupRefs d := by
+  have h1 : ((allNodes (shapeDoc d)).map nodeRefsD) = (allNodes d).map nodeRefsD := by
+    rw [allNodes_shapeDoc, List.map_map]
+    exact List.map_congr_left (fun n _ => nodeRefsD_shape n)
+  have h2 : (shapeDoc d).campaigns.map (fun c => gref c.group) = d.campaigns.map (fun c => gref c.group) := by
+    simp only [shapeDoc, List.map_map]
+    rfl
+  have h3 : (shapeDoc d).triggers.map triggerRefsD = d.triggers.map triggerRefsD := by
+    simp only [shapeDoc, List.map_map]
+    apply List.map_congr_left
+    intro t _
+    simp [triggerRefsD, renderTrigger, trigImg, List.map_map, Function.comp_def, gref_renderGroup]
+  simp only [docGroupRefs, h1, h2, h3]
+
+theorem docFlowRefsPre_shapeDoc (d : DocD) (hc : ∀ c ∈ d.campaigns, validCampaign c = true) :
+    docFlowRefsPre (shapeDoc d) = docFlowRefsPre d := by
+  have h1 : ((allNodes (shapeDoc d)).map nodeFlowRefsD) = (allNodes d).map nodeFlowRefsD := by
+    rw [allNodes_shapeDoc, List.map_map]
+    exact List.map_congr_left (fun n _ => nodeFlowRefsD_shape n)
+  have h2 : (shapeDoc d).flows.map (fun f => (f.name, f.uuid)) = d.flows.map (fun f => (f.name, f.uuid)) := by
+    simp only [shapeDoc, List.map_map]
+    rfl
+  have h3 : (shapeDoc d).campaigns.map (fun c => c.events.map eventFlowRefs) = d.campaigns.map (fun c => c.events.map eventFlowRefs) := by
+    simp only [shapeDoc, List.map_map]
+    apply List.map_congr_left
+    intro c hc'
+    simp only [Function.comp, renderCampaign_valid c (hc c hc')]
+  simp only [docFlowRefsPre, h1, h2, h3]
+
+theorem docFlowRefs_shapeDoc (d : DocD) (hc : ∀ c ∈ d.campaigns, validCampaign c = true) :
+    docFlowRefs (shapeDoc d) = docFlowRefs d := by
+  have h : (shapeDoc d).triggers.map (fun t => fref t.flow) = d.triggers.map (fun t => fref t.flow) := by
+    simp only [shapeDoc, List.map_map]
+    rfl
+  simp only [docFlowRefs, docFlowRefsPre_shapeDoc d hc, h]
+
+theorem valid_shapeDoc (d : DocD) (hv : Valid d) : Valid (shapeDoc d) where
+  flows := by
+    intro f' hf'
+    obtain ⟨f, hf, rfl⟩ := List.mem_map.mp hf'
+    exact validFlow_shape f (hv.flows f hf)
+  campaigns := by
+    intro c' hc'
+    obtain ⟨c, hc, rfl⟩ := List.mem_map.mp hc'
+    exact validCampaign_render c (hv.campaigns c hc)
+  triggers := by
+    intro t' ht'
+    obtain ⟨t, ht, rfl⟩ := List.mem_map.mp ht'
+    exact validTrigger_shape t (hv.triggers t ht)
+  fields := hv.fields
+  site := hv.site
+  groupNames := by
+    have : (shapeDoc d).groups.map (·.name) = d.groups.map (·.name) := by
+      simp only [shapeDoc, List.map_map]; rfl
+    rw [this]; exact hv.groupNames
+  groupUuids := by
+    intro g' hg'
+    obtain ⟨g, hg, rfl⟩ := List.mem_map.mp hg'
+    exact hv.groupUuids g hg
+  groupsListed := by
+    have : (shapeDoc d).groups.map gref = d.groups.map gref := by
+      simp only [shapeDoc, List.map_map]; rfl
+    rw [docGroupRefs_shapeDoc, this]
+    exact hv.groupsListed
+  flowRefs := by
+    rw [docFlowRefs_shapeDoc d hv.campaigns]
+    exact hv.flowRefs
+  triggerFlows := by
+    intro t' ht'
+    obtain ⟨t, ht, rfl⟩ := List.mem_map.mp ht'
+    rw [docFlowRefsPre_shapeDoc d hv.campaigns]
+    exact hv.triggerFlows t ht
+
+theorem ordered_shapeDoc (d : DocD) (h : OrderedCats d) : OrderedCats (shapeDoc d) := by
+  intro n' hn'
+  rw [allNodes_shapeDoc] at hn'
+  obtain ⟨n, hn, rfl⟩ := List.mem_map.mp hn'
+  rw [orderedNode_shape]; exact h n hn
+
+theorem exitsByCats_shapeDoc (d : DocD) (h : ExitsByCats d) : ExitsByCats (shapeDoc d) := by
+  intro n' hn'
+  rw [allNodes_shapeDoc] at hn'
+  obtain ⟨n, hn, rfl⟩ := List.mem_map.mp hn'
+  rw [exitsByCats_shape]; exact h n hn
+
+theorem untyped_shapeDoc (d : DocD) (h : UntypedFields d) : UntypedFields (shapeDoc d) := by
+  intro n' hn' a' ha'
+  rw [allNodes_shapeDoc] at hn'
+  obtain ⟨n, hn, rfl⟩ := List.mem_map.mp hn'
+  obtain ⟨a, ha, rfl⟩ := List.mem_map.mp ha'
+  exact untypedAction_render a (h n hn a ha)
+
 end Rpft.Document
